@@ -93,7 +93,7 @@ fn roundtrip(profile: SrtpProfile, pad: u8) {
 // @bound profile AES_CM_128_HMAC_SHA1_80; 12-byte header (no CSRC/extension), 3 symbolic payload bytes, no padding; symbolic key/salt/SSRC/seq/timestamp/marker/PT; symbolic shared (roc, last seq) history incl. wrap
 // @oracle unprotect(protect(p)) == p field by field; wire length = header+payload+tag; clear header bytes on the wire; both contexts end with the same (roc, seq)
 #[kani::proof]
-#[kani::unwind(24)]
+#[kani::unwind(52)]
 #[kani::stub(std::time::Instant::now, now_stub)]
 fn vc04_roundtrip_sha1_80() { roundtrip(SrtpProfile::Aes128Sha1_80, 0); }
 
@@ -103,7 +103,7 @@ fn vc04_roundtrip_sha1_80() { roundtrip(SrtpProfile::Aes128Sha1_80, 0); }
 // @bound profile AEAD_AES_128_GCM; otherwise as vc04_roundtrip_sha1_80
 // @oracle as vc04_roundtrip_sha1_80
 #[kani::proof]
-#[kani::unwind(24)]
+#[kani::unwind(52)]
 #[kani::stub(std::time::Instant::now, now_stub)]
 fn vc04_roundtrip_gcm() { roundtrip(SrtpProfile::AeadAes128Gcm, 0); }
 
@@ -113,7 +113,7 @@ fn vc04_roundtrip_gcm() { roundtrip(SrtpProfile::AeadAes128Gcm, 0); }
 // @bound profile AES_CM_128_HMAC_SHA1_32 with 2 padding bytes; otherwise as vc04_roundtrip_sha1_80
 // @oracle as vc04_roundtrip_sha1_80, padding length restored
 #[kani::proof]
-#[kani::unwind(24)]
+#[kani::unwind(52)]
 #[kani::stub(std::time::Instant::now, now_stub)]
 fn vc04_roundtrip_sha1_32_pad() { roundtrip(SrtpProfile::Aes128Sha1_32, 2); }
 
@@ -123,7 +123,7 @@ fn vc04_roundtrip_sha1_32_pad() { roundtrip(SrtpProfile::Aes128Sha1_32, 2); }
 // @bound NULL cipher + HMAC profile; otherwise as vc04_roundtrip_sha1_80
 // @oracle as vc04_roundtrip_sha1_80
 #[kani::proof]
-#[kani::unwind(24)]
+#[kani::unwind(52)]
 #[kani::stub(std::time::Instant::now, now_stub)]
 fn vc04_roundtrip_null() { roundtrip(SrtpProfile::NullCipherHmac, 0); }
 
